@@ -150,8 +150,9 @@ def step (st : St) (l : Line) : St × String :=
     | _, _, _ => bad
   | "api_member" =>
     match parseTy l, l.nat? "cap", parseKind l, (l.str? "member").bind (fun m => parseOpNamed m l) with
-    | some ty, some _, some _, some op =>
-      (st, s!"has={fmtBool (supports ty op)}\thas={fmtBool (Spec.offers ty op)}")
+    | some ty, some cap, some _, some op =>
+      let extra := ty == .ipv && ipvZeroExtra cap ((l.str? "member").getD "")
+      (st, s!"has={fmtBool (supports ty op || extra)}\thas={fmtBool (Spec.offers ty op)}")
     | _, _, _, _ => bad
   | _ =>
     if st.poisoned then (st, "invalid\tinvalid") else
